@@ -96,69 +96,89 @@ def run(ctx, pid="C09"):
         fo.write("\n".join(timed) + "\n")
     vlib.log("[conn] scripts: %d of <= 3 groups (all) + %d with 4 groups + %d of the clock" % (n3, n4, len(timed)))
 
-    # 3. real connection objects
-    binary = vlib.go_build("c09")
-    shards = 8 if q else 12
+    # A verdict needs behaviour that shows again (DESIGN 2.2): the races of this part are not forced, so a mismatch seen in
+    # one pass only (once in ~10^5 runs under heavy machine load) is re-run; what does not show a second time is noted, not judged.
     reps = "3" if q else "12"
-    jobs = []
-    for s in range(shards):
-        t = os.path.join(ctx.tmp, "conn-%d.ndjson" % s)
-        jobs.append(("plain", t, ["-mode", "conn", "-cases", cases, "-trace", t, "-shard", str(s), "-shards", str(shards), "-reps", reps]))
-    t = os.path.join(ctx.tmp, "conn-timed.ndjson")
-    jobs.append(("clock", t, ["-mode", "conn", "-timed", "-cases", tcases, "-trace", t, "-reps", reps]))
-    if os.environ.get("C09_CONN_EXPERIMENTS"):
-        t = os.path.join(ctx.tmp, "conn-exp.ndjson")
-        jobs.append(("experiment", t, ["-mode", "conn", "-experiment", "slowconnect", "-trace", t]))
-    with cf.ThreadPoolExecutor(max_workers=len(jobs)) as ex:
-        for f in [ex.submit(vlib.run_driver, ctx, binary, j[2], 1500) for j in jobs]:
-            f.result()
 
-    # 4. TLC validates every recorded run
-    def validate(j):
-        return vlib.validate_trace(ctx, FAM, "ConnectionTrace", "ConnectionTrace.cfg", j[1], timeout=1500)
-    with cf.ThreadPoolExecutor(max_workers=max(2, vlib.NCPU // 2)) as ex:
-        results = list(ex.map(validate, jobs))
+    def one_pass(tagp):
+        found = []
+        nruns = nops = nab = nraces = nguided = 0
+        kinds, observed = {}, {}
+        outcomes = {}
+        # 3. real connection objects
+        binary = vlib.go_build("c09")
+        shards = 8 if q else 12
+        reps = "3" if q else "12"
+        jobs = []
+        for s in range(shards):
+            t = os.path.join(ctx.tmp, "conn-%s-%d.ndjson" % (tagp, s))
+            jobs.append(("plain", t, ["-mode", "conn", "-cases", cases, "-trace", t, "-shard", str(s), "-shards", str(shards), "-reps", reps]))
+        t = os.path.join(ctx.tmp, "conn-%s-timed.ndjson" % tagp)
+        jobs.append(("clock", t, ["-mode", "conn", "-timed", "-cases", tcases, "-trace", t, "-reps", reps]))
+        if os.environ.get("C09_CONN_EXPERIMENTS"):
+            t = os.path.join(ctx.tmp, "conn-%s-exp.ndjson" % tagp)
+            jobs.append(("experiment", t, ["-mode", "conn", "-experiment", "slowconnect", "-trace", t]))
+        with cf.ThreadPoolExecutor(max_workers=len(jobs)) as ex:
+            for f in [ex.submit(vlib.run_driver, ctx, binary, j[2], 1500) for j in jobs]:
+                f.result()
 
-    nruns = nops = nab = nraces = nguided = 0
-    kinds, observed = {}, {}
-    outcomes = {}        # racing closers: class -> set of first events seen
-    for j, v in zip(jobs, results):
-        mode = j[0]
-        evs = vlib.read_jsonl(j[1])
-        ctx.cov["states"] += v["distinct"]; ctx.cov["transitions"] += v["generated"]
-        mm = [(int(a), b) for a, b in MM.findall(v["text"])]
-        if not v["accepted"] and not mm and v["matched"] is None:
-            raise vlib.Inconclusive("connection trace validation did not complete:\n%s" % v["text"][-1200:])
-        starts = [i for i, e in enumerate(evs) if e["ev"] == "conn"]
-        nruns += len(starts)
-        nops += sum(1 for e in evs if e["ev"] == "begin")
-        nab += sum(1 for e in evs if e["ev"] == "note" and e.get("what") == "abandon")
-        nguided += sum(e.get("n", 0) for e in evs if e["ev"] == "note" and e.get("what") == "guided")
-        for a, b in zip(starts, starts[1:] + [len(evs)]):
-            run_ = evs[a:b]
-            groups = [g.split("|") for g in run_[0]["cls"].partition(":")[2].split(";")]
-            if any(len(CLOSERS & set(g)) == 2 for g in groups):
-                nraces += 1
-                first = next((e["e"] for e in run_ if e["ev"] == "lev" and e["e"] not in ("ConnectedFlag", "ConnectFailed", "OnReadTimeout")), None)
-                outcomes.setdefault(run_[0]["cls"], set()).add(first)
-        if mode == "plain" and len(ctx.cov["samples"]) < 6 and not any(isinstance(x, dict) and x.get("part") == "conn" for x in ctx.cov["samples"]):
-            ctx.sample({"part": "conn", "trace_head": evs[:12]})
+        # 4. TLC validates every recorded run
+        def validate(j):
+            return vlib.validate_trace(ctx, FAM, "ConnectionTrace", "ConnectionTrace.cfg", j[1], timeout=1500)
+        with cf.ThreadPoolExecutor(max_workers=max(2, vlib.NCPU // 2)) as ex:
+            results = list(ex.map(validate, jobs))
 
-        def fail(line, kind):
-            si = bisect.bisect_right(starts, line - 1) - 1
-            a = starts[si] if si >= 0 else 0
-            b = starts[si + 1] if si + 1 < len(starts) else len(evs)
-            cls = _class(evs[a].get("cls", "?"))
-            if kind in OBSERVED_NOT_JUDGED or mode == "experiment":
-                observed[kind] = observed.get(kind, 0) + 1
-                return
-            sig = "%s:conn:%s:%s" % (pid, kind, cls)
-            vlib.report_failure(ctx, sig, dict(mode=mode, line=line, script=evs[a].get("cls"), run=evs[a:b]))
-            kinds[sig] = kinds.get(sig, 0) + 1
-        for line, kind in mm:
-            fail(line, kind)
-        if v["matched"] is not None and v["matched"] < len(evs):
-            fail(v["matched"] + 1, "trace-rejected:" + evs[v["matched"]]["ev"])
+        for j, v in zip(jobs, results):
+            mode = j[0]
+            evs = vlib.read_jsonl(j[1])
+            ctx.cov["states"] += v["distinct"]; ctx.cov["transitions"] += v["generated"]
+            mm = [(int(a), b) for a, b in MM.findall(v["text"])]
+            if not v["accepted"] and not mm and v["matched"] is None:
+                raise vlib.Inconclusive("connection trace validation did not complete:\n%s" % v["text"][-1200:])
+            starts = [i for i, e in enumerate(evs) if e["ev"] == "conn"]
+            nruns += len(starts)
+            nops += sum(1 for e in evs if e["ev"] == "begin")
+            nab += sum(1 for e in evs if e["ev"] == "note" and e.get("what") == "abandon")
+            nguided += sum(e.get("n", 0) for e in evs if e["ev"] == "note" and e.get("what") == "guided")
+            for a, b in zip(starts, starts[1:] + [len(evs)]):
+                run_ = evs[a:b]
+                groups = [g.split("|") for g in run_[0]["cls"].partition(":")[2].split(";")]
+                if any(len(CLOSERS & set(g)) == 2 for g in groups):
+                    nraces += 1
+                    first = next((e["e"] for e in run_ if e["ev"] == "lev" and e["e"] not in ("ConnectedFlag", "ConnectFailed", "OnReadTimeout")), None)
+                    outcomes.setdefault(run_[0]["cls"], set()).add(first)
+            if mode == "plain" and len(ctx.cov["samples"]) < 6 and not any(isinstance(x, dict) and x.get("part") == "conn" for x in ctx.cov["samples"]):
+                ctx.sample({"part": "conn", "trace_head": evs[:12]})
+
+            def fail(line, kind):
+                si = bisect.bisect_right(starts, line - 1) - 1
+                a = starts[si] if si >= 0 else 0
+                b = starts[si + 1] if si + 1 < len(starts) else len(evs)
+                cls = _class(evs[a].get("cls", "?"))
+                if kind in OBSERVED_NOT_JUDGED or mode == "experiment":
+                    observed[kind] = observed.get(kind, 0) + 1
+                    return
+                sig = "%s:conn:%s:%s" % (pid, kind, cls)
+                found.append((sig, dict(mode=mode, line=line, script=evs[a].get("cls"), run=evs[a:b])))
+                kinds[sig] = kinds.get(sig, 0) + 1
+            for line, kind in mm:
+                fail(line, kind)
+            if v["matched"] is not None and v["matched"] < len(evs):
+                fail(v["matched"] + 1, "trace-rejected:" + evs[v["matched"]]["ev"])
+        return found, dict(nruns=nruns, nops=nops, nab=nab, nraces=nraces, nguided=nguided, kinds=kinds, observed=observed, outcomes=outcomes)
+
+    found, st = one_pass("a")
+    if found:
+        found2, st2 = one_pass("b")
+        again = set(sig for sig, _ in found2)
+        for sig, det in found + found2:
+            if sig in again and sig in set(x for x, _ in found):
+                vlib.report_failure(ctx, sig, det)
+        once = sorted(set(sig for sig, _ in found + found2) - (again & set(x for x, _ in found)))
+        for sig in once:
+            ctx.notes.append("conn: %s seen in one of two passes only: not reproduced, not judged" % sig)
+    nruns, nops, nab, nraces, nguided = st["nruns"], st["nops"], st["nab"], st["nraces"], st["nguided"]
+    kinds, observed, outcomes = st["kinds"], st["observed"], st["outcomes"]
     if nruns == 0 or nops == 0:
         raise vlib.Inconclusive("no connection scripts were run")
     both = sum(1 for s in outcomes.values() if len(s) > 1)
